@@ -134,7 +134,9 @@ uint DAC_VLS::access(uint pos, uint **seq) const {
   sequence[j] = get_field(levels, base_bits, ini);
   l_seq = 1;
 
-  while (bitget(((BitSequenceRG *)bS)->data, ini)) {
+  // The last level has no continuation bits (and shares its first position
+  // with the end mark of the bitmap): never look past it
+  while (j < (uint)nLevels - 1 && bitget(((BitSequenceRG *)bS)->data, ini)) {
     rankini = bS->rank1(ini) - rankLevels[j];
     j++;
 
@@ -142,8 +144,6 @@ uint DAC_VLS::access(uint pos, uint **seq) const {
     sequence[j] = get_field(levels, base_bits, ini);
 
     l_seq++;
-    if (j == (uint)nLevels - 1)
-      break;
   }
   *seq = sequence;
   return l_seq;
